@@ -2128,6 +2128,7 @@ def app_project_runner__ProjectRunner_runProcess : List String := [
   "process := NewProcess(withTuiOn(p.isTuiOn), withGlobalEnv(p.project.Environment), withLogger(procLogger), withProcConf(config), withProcState(procState), withProcLog(procLog), withShellConfig(*p.project.ShellConfig), withPrintLogs(printLogs), withIsMain(isMain), withExtraArgs(extraArgs))",
   "process.setState(types.ProcessStatePending)",
   "p.addRunningProcess(process)",
+  "p.removeDoneProcess(config.ReplicaName)",
   "p.waitGroup.Add(1)",
   "go func(proc *Process) {",
   "defer p.removeRunningProcess(proc)",
